@@ -251,6 +251,10 @@ pub fn fuzz_part() -> CustomPart {
                                 "-print_final_stats=1".to_string(),
                                 format!("-artifact_prefix={}/", arts.display()),
                             ]);
+                            let dict = dir.join("keywords.dict");
+                            if dict.is_file() && *target != "roundtrip" {
+                                c.arg(format!("-dict={}", dict.display()));
+                            }
                             match run_with_budget(c, Duration::from_secs(3000)) {
                                 Ok((code, out, timed_out)) => {
                                     let tail: String = out.lines().rev().take(25).collect::<Vec<_>>().into_iter().rev().collect::<Vec<_>>().join("\n");
@@ -390,6 +394,17 @@ pub fn gen_corpus_child(args: &[String]) -> i32 {
                 }
             }
         }
+    }
+    // libFuzzer dictionary: every keyword and multi-character operator
+    if let Some(parent) = out.parent() {
+        let mut d = String::from("# generated by `nv_c15 child gen-corpus`\n");
+        for k in nv_c15::KEYWORDS {
+            d.push_str(&format!("\"{k}\"\n"));
+        }
+        for p in ["<=", ">=", "<>", "!=", "<<", ">>", "||", "&&", "->", "=>", "::", "--", "/*", "*/", "''", "\\\\"] {
+            d.push_str(&format!("\"{p}\"\n"));
+        }
+        let _ = std::fs::write(parent.join("keywords.dict"), d);
     }
     let mut total = 0u64;
     for t in TARGETS {
